@@ -25,6 +25,10 @@ SoupTiny == {"put ", "let ", "if ", "else ", "while ", "rock ", "roll ", "taking
              "says ", "- ", NLc, ", ", "'s ", "foo ", "Bar ", "the ", "it ", "5 ", "and ", "like ", "give ", "back "}
 SoupStmt == {"say ", "foo ", "is ", "5 ", NLc, "if ", "else ", "while ", "takes ", "give back ", "put ", "into ", "it ", ", ", "and ", "break ", "Bar ", "taking ", "- "}
 
+(* right-hand sides of `is` / `like`: where a poetic literal starts and where it does not (a literal word or a negative number first *)
+(* makes the right-hand side an ordinary expression, which must then be one to the end of the line)                                *)
+SoupPoetic == {"foo is ", "true ", "nothing ", "-", "5 ", "love ", "so ", ". ", "'s ", NLc, "rock foo like ", "plus ", "foo says "}
+
 (* whole lines and line pieces: most sequences are several statements with block structure, many of them valid *)
 SoupLines == {"say foo" \o NLc, "put 5 into foo" \o NLc, "if foo" \o NLc, "else" \o NLc, NLc, "while foo" \o NLc, "foo takes bar" \o NLc,
               "give back 1" \o NLc, "foo is 5" \o NLc, "foo is lovely day" \o NLc, "break" \o NLc, "say ", "foo ", "plus ", "5 ", ", ", "and ",
